@@ -429,7 +429,8 @@ func genC15Det(t *rapid.T) DetCase {
 		}
 		return DetCase{A: val.JSON(a), B: val.JSON(b), Opts: "list"}
 	}
-	pc := genPairCase(t, c01OptSets, func(p *gen.Profile) { p.MaxObj = 6 })
+	var pc PairCase
+	gen.Unscaled(func() { pc = genPairCase(t, c01OptSets, func(p *gen.Profile) { p.MaxObj = 6 }) })
 	p := gen.Profile{MaxObj: 6, MaxDepth: 3}
 	m := genMergeDoc(t, gen.Object(t, p, 0))
 	return DetCase{A: pc.A, B: pc.B, Opts: pc.Opts, Merge: val.JSON(m)}
